@@ -307,13 +307,20 @@ func c19Pool(r *Run, kind int) []interface{} {
 	}
 }
 
-func c19Case(r *Run) map[string]interface{} {
+func c19Case(r *Run) map[string]interface{} { return c19CaseSized(r, -1) }
+
+// c19CaseSized: size < 0 draws a small graph; otherwise `size` vertices (inputs beyond the
+// aggregation step's internal buffers and batches).
+func c19CaseSized(r *Run, size int) map[string]interface{} {
 	rng := r.Rng
 	kind := rng.Intn(6)
 	pool := c19Pool(r, kind)
 	nv := rng.Intn(9)
 	if rng.Intn(6) == 0 {
 		nv = rng.Intn(30)
+	}
+	if size >= 0 {
+		nv = size
 	}
 	verts := []interface{}{}
 	labels := []string{"A", "B"}
@@ -333,6 +340,9 @@ func c19Case(r *Run) map[string]interface{} {
 	edges := []interface{}{}
 	if nv > 0 {
 		ne := rng.Intn(nv + 1)
+		if size >= 0 && ne > 40 {
+			ne = 40
+		}
 		for i := 0; i < ne; i++ {
 			data := map[string]interface{}{}
 			if rng.Intn(4) != 0 {
@@ -343,7 +353,11 @@ func c19Case(r *Run) map[string]interface{} {
 		}
 	}
 	var pre []interface{}
-	switch rng.Intn(8) {
+	sel := rng.Intn(8)
+	if size >= 0 {
+		sel = 7 // all vertices
+	}
+	switch sel {
 	case 0:
 		pre = []interface{}{map[string]interface{}{"v": []interface{}{}}, map[string]interface{}{"hasLabel": []interface{}{"A"}}}
 	case 1:
@@ -518,8 +532,19 @@ func c19Gen(r *Run) {
 		ngraphs, per = 350, 10
 	}
 	allNames := []string{"a", "b", "c", "d", "e", "f"}
-	for gi := 0; gi < ngraphs; gi++ {
-		base := c19Case(r)
+	// large inputs: around and beyond the aggregation step's channel buffer (1000 rows) 
+	big := []int{999, 1001, 2600}
+	if r.Tier == "thorough" {
+		big = append(big, 251, 501, 5003, 12000)
+	}
+	for gi := 0; gi < ngraphs+len(big); gi++ {
+		var base map[string]interface{}
+		if gi < len(big) {
+			base = c19CaseSized(r, big[gi])
+			r.Count(fmt.Sprintf("case:large-%d", big[gi]))
+		} else {
+			base = c19Case(r)
+		}
 		for k := 0; k < per; k++ {
 			op := map[string]interface{}{"op": "agg", "verts": base["verts"], "edges": base["edges"], "pre": base["pre"]}
 			var na int
